@@ -20,6 +20,12 @@ CLAIMED = {
                      "linear interpolation, with the on-segment and exact-at-the-ends clauses as real-arithmetic lemmas.",
                 note="interpolate_ground_truth_frames is cut at an *assumed* contract (stamped with the query time, built from the two frames passed); the per-object "
                      "pose clauses (slerp shortest arc, objects present in one neighbour kept) are not decided in this build. Floats as reals.", ref="5/C17"),
+    "C10": dict(text="_is_target_object is verified to compute exactly the statement's keep predicate (clause by clause, both directions) for a symbolic "
+                     "object and all parameter lists; get_label_threshold against first-matching-target semantics; filter_objects and filter_object_results "
+                     "are verified (loop invariants over a ghost prefix count, induction lemmas proved on every run) to return exactly the kept elements in "
+                     "order, in a new list, input untouched; a result goes when either side fails.",
+                note="filter_* use the callee only through an abstract contract kept(o, all arguments) (modular); TransformDict.transform is an assumed contract "
+                     "(identity on X->X, else uninterpreted); np.mean uninterpreted; monotonicity in the relaxed (mean) bounds and 2-D objects not covered.", ref="5/C10"),
 }
 NA_REASON = "check not built yet in this session (planned in DESIGN.md section 5); not claimed"
 ALL = [f"C{n:02d}" for n in range(1, 21)]
